@@ -9,7 +9,7 @@ from common import Ctx
 ID = "C09"
 PROPS = ["props/C09.v"]
 EXTRACTS = ["Solver"]
-THEOREMS = ['C09_no_candidate_is_honest_partial', 'C09_refuted_internal_errors_escape', 'C09_refuted_unbounded_recursion']
+THEOREMS = ['C09_no_candidate_is_honest_partial', 'C09_reported_chains_are_real', 'C09_refuted_internal_errors_escape', 'C09_refuted_unbounded_recursion']
 MODES = ['conflict', 'conflict', 'dense', 'dense', 'extras', 'calm']
 RULE = ("universes (2-6 projects x 1-4 versions incl. pre/post/dev releases, requirements with the 7 operators, "
         "wildcards, extras, extra- and environment-markers, cycles, unreadable files, misnamed files), 1-3 input files, "
